@@ -31,6 +31,8 @@ type Graph struct {
 	assignCount map[*types.Var]int
 	assumedFn   func(Fact) bool // set while a query with Assume runs
 	flagIx      map[*types.Var]int
+	entryVals   map[*GNode]map[Val]bool // valuations with which each node is reached from the entry (lazily, no assumption)
+	seeding     bool
 	nilIx       map[*types.Var]int // tracked locals of type error: the valuation holds the truth of `v != nil`
 	evalAt      *GNode             // the node whose condition / assignment is being evaluated (for Fact.At)
 
@@ -1141,6 +1143,7 @@ type Query struct {
 	AvoidNode func(*GNode) bool // nodes that may not be passed (a start node itself is not tested)
 	AvoidEdge func(*GEdge) bool // edges that may not be taken
 	NoFlags   bool              // ignore flag valuations (path-insensitive)
+	NoSeed    bool              // start nodes begin with no knowledge of the flags (default: what the entry of the function can establish)
 	NonNil    []types.Object    // tracked error locals known to be non-nil at the start nodes
 	Assume    func(Fact) bool   // atoms taken to hold (Fact{x,true}: x holds; Fact{x,false}: x does not) while conditions and flag assignments are evaluated
 }
@@ -1199,7 +1202,9 @@ func (g *Graph) Reach(q Query) map[*GNode]bool {
 		push(state{g.Entry, v0})
 	}
 	for _, n := range q.From {
-		leave(n, v0)
+		for _, sv := range g.seedVals(n, v0, q) {
+			leave(n, sv)
+		}
 	}
 	for _, n := range q.FromAt {
 		v := v0
@@ -1223,6 +1228,51 @@ func (g *Graph) Reach(q Query) map[*GNode]bool {
 		leave(s.n, v)
 	}
 	return reached
+}
+
+// seedVals: the valuations with which execution can leave start node n. A query that starts in the middle of a function
+// knows nothing about the flags assigned before n unless it is told: the valuations with which n is reached from the
+// entry of the function (all paths, no avoidance) are an over-approximation of what can hold there, and n's own
+// assignments are applied on top. A node that the entry does not reach (or NoFlags) starts from v0 as before.
+func (g *Graph) seedVals(n *GNode, v0 Val, q Query) []Val {
+	if q.NoFlags || q.NoSeed || g.seeding || len(g.Flags)+len(g.nilIx) == 0 {
+		return []Val{v0}
+	}
+	if g.entryVals == nil || q.Assume != nil {
+		g.seeding = true
+		ev := g.ReachVals(Query{FromEntry: true, Assume: q.Assume})
+		g.seeding = false
+		if q.Assume != nil {
+			g.assumedFn = q.Assume
+			return g.mergeSeeds(ev[n], n, v0)
+		}
+		g.entryVals = ev
+	}
+	return g.mergeSeeds(g.entryVals[n], n, v0)
+}
+
+func (g *Graph) mergeSeeds(vals map[Val]bool, n *GNode, v0 Val) []Val {
+	if len(vals) == 0 || len(vals) > 64 {
+		return []Val{v0}
+	}
+	set := map[Val]bool{}
+	var out []Val
+	for sv := range vals {
+		g.evalAt = n
+		w := g.transfer(n, sv)
+		// facts given by the query (NonNil) hold after the start node: they override what the analysis derives
+		for i := 0; i < maxTracked; i++ {
+			if t := v0.get(i); t != tvU {
+				w = w.set(i, t)
+			}
+		}
+		if !set[w] {
+			set[w] = true
+			out = append(out, w)
+		}
+	}
+	sort.Slice(out, func(i, j int) bool { return out[i] < out[j] })
+	return out
 }
 
 // ReachVals is Reach that also reports the flag valuations with which each node is reached (before the node runs).
@@ -1269,7 +1319,9 @@ func (g *Graph) ReachVals(q Query) map[*GNode]map[Val]bool {
 		push(state{g.Entry, v0})
 	}
 	for _, n := range q.From {
-		leave(n, v0)
+		for _, sv := range g.seedVals(n, v0, q) {
+			leave(n, sv)
+		}
 	}
 	for _, n := range q.FromAt {
 		v := v0
